@@ -229,4 +229,42 @@ theorem no_credentials_on_wire (u : Url) (hs : IsScheme u.scheme)
     · simp [hq] at ha
     · simp [hq] at ha
 
+/-! ## non-vacuity: concrete URL values inside the property's quantifier
+
+(`decide` here only evaluates the hypotheses on sample values — tests of satisfiability, not theorems.) -/
+
+/-- `rtsp://u:p@h:554/a/trackID=5?q=/trackID=7` : user-info, port, tag look-alikes in path and query -/
+def ex1 : Url :=
+  { scheme := [114, 116, 115, 112], user := some ⟨[117], some [112]⟩, host := [104, 58, 53, 53, 52],
+    path := [47, 97, 47, 116, 114, 97, 99, 107, 73, 68, 61, 53],
+    epath := [47, 97, 47, 116, 114, 97, 99, 107, 73, 68, 61, 53],
+    rawQuery := [113, 61, 47, 116, 114, 97, 99, 107, 73, 68, 61, 55] }
+
+theorem ex1_inScope : InScope ex1 :=
+  { wf := { scheme := Or.inl (by decide), noOmit := rfl,
+            auth := ⟨by decide, by decide, by decide⟩,
+            authNC := ⟨by decide, by decide, by decide⟩,
+            path := ⟨by decide, by decide, by decide, by decide⟩,
+            query := by decide, fq := by decide },
+    pathNoSlash := by decide, queryNoSlash := by decide }
+
+/-- `rtsps://[::1]/a%2Fb!` : IPv6 literal, escaped slash and a sub-delimiter (non-canonical escaping), no query -/
+def ex2 : Url :=
+  { scheme := [114, 116, 115, 112, 115], host := [91, 58, 58, 49, 93],
+    path := [47, 97, 47, 98, 33], epath := [47, 97, 37, 50, 70, 98, 33] }
+
+theorem ex2_inScope : InScope ex2 :=
+  { wf := { scheme := Or.inr (by decide), noOmit := rfl,
+            auth := ⟨by decide, by decide, by decide⟩,
+            authNC := ⟨by decide, by decide, by decide⟩,
+            path := ⟨by decide, by decide, by decide, by decide⟩,
+            query := by decide, fq := by decide },
+    pathNoSlash := by decide, queryNoSlash := by decide }
+
+/-- the hypotheses of the theorems above are satisfiable, with and without user-info / query / escapes -/
+example : ∃ u, InScope u ∧ u.user.isSome = true ∧ hasQ u = true ∧ u.forceQuery = false := ⟨ex1, ex1_inScope, rfl, by decide, rfl⟩
+example : ∃ u, InScope u ∧ hasQ u = false ∧ u.epath ≠ u.path := ⟨ex2, ex2_inScope, by decide, by decide⟩
+example : IsScheme ex1.scheme ∧ (ex1.epath = [] ∨ ex1.epath.head? = some 47) ∧ (ex1.path = [] ↔ ex1.epath = []) :=
+  ⟨Or.inl (by decide), Or.inr (by decide), by decide⟩
+
 end Rtsp.Url
